@@ -133,7 +133,12 @@ impl Write for Sink {
     }
 
     fn flush(&mut self) -> io::Result<()> {
-        self.st.borrow_mut().flush_calls += 1;
+        let mut st = self.st.borrow_mut();
+        st.flush_calls += 1;
+        // a forwarded flush is a call to the sink as well: none between a failure and its report
+        if st.failed_unreported {
+            st.calls_while_unreported += 1;
+        }
         Ok(())
     }
 }
@@ -410,6 +415,7 @@ fn epilogue(cfg: &Cfg, w: &mut World, e: Epilogue, just_panicked: bool) -> Probl
     let calls_before = w.sink.borrow().write_calls;
     let unreported_before = w.sink.borrow().failed_unreported;
     let failures_before = w.sink.borrow().failures;
+    let while_unreported_before = w.sink.borrow().calls_while_unreported;
     let post_panic = w.post_panic;
     let mut writer = w.writer.take().unwrap();
     let r = catch(move || {
@@ -445,6 +451,9 @@ fn epilogue(cfg: &Cfg, w: &mut World, e: Epilogue, just_panicked: bool) -> Probl
                     p.push(("drop", format!("the writer called the sink {} more time(s) when dropped right after a sink write panicked", sink.write_calls - calls_before)));
                 }
                 return p;
+            }
+            if e == Epilogue::FlushThenDrop && sink.calls_while_unreported > while_unreported_before {
+                p.push(("sink-called-after-failure", format!("the sink was called {} time(s) between a failure and its report (final flush)", sink.calls_while_unreported - while_unreported_before)));
             }
             if let Some(r) = flush_res {
                 let expected_err = unreported_before || sink.failures > failures_before;
@@ -521,6 +530,13 @@ fn alphabet(cfg: &Cfg, mode: Mode, w: &World, tier: Tier) -> Vec<WOp> {
         (0..=3 * cap).collect()
     } else {
         let mut v = vec![0, 1, free.saturating_sub(1), free, free + 1, cap - 1, cap, cap + 1, 2 * cap, 3 * cap];
+        // fill levels that leave exactly MAX_LEN - 1, MAX_LEN, MAX_LEN + 1 bytes free for every
+        // integer type (3, 4, 5, 6, 10, 11, 20, 39, 40 characters)
+        for t in [2usize, 3, 4, 5, 6, 7, 9, 10, 11, 12, 19, 20, 21, 38, 39, 40, 41] {
+            if free > t {
+                v.push(free - t);
+            }
+        }
         v.sort();
         v.dedup();
         v
@@ -740,7 +756,7 @@ fn expand(cfg: &Cfg, mode: Mode, tier: Tier, hist: &Vec<Step>, report: &mut Repo
 pub fn configs(mode: Mode, tier: Tier) -> Vec<(Cfg, usize)> {
     // (configuration, depth bound; usize::MAX = to closure)
     let mut v = Vec::new();
-    let caps: &[usize] = tier.pick(&[8][..], &[8, 48][..]);
+    let caps: &[usize] = &[8, 48];
     let fails: Vec<Fail> = if mode == Mode::C14 {
         vec![Fail::None, Fail::PanicAt(0), Fail::PanicAt(1), Fail::ErrOnce(0)]
     } else {
@@ -762,6 +778,11 @@ pub fn configs(mode: Mode, tier: Tier) -> Vec<(Cfg, usize)> {
         for &fail in &fails {
             for (interrupts, short_writes) in [(0u32, false), (1, true)] {
                 if tier == Tier::Quick && interrupts > 0 && !matches!(fail, Fail::None | Fail::ErrOnce(1)) {
+                    continue;
+                }
+                // the larger capacity (integer fast path next to the end of the buffer) in the quick
+                // tier: accepting sink and one failing sink only
+                if tier == Tier::Quick && c != 8 && !(interrupts == 0 && matches!(fail, Fail::None | Fail::ErrOnce(1))) {
                     continue;
                 }
                 v.push((Cfg { capacity: Some(c), fail, interrupts, short_writes }, usize::MAX));
